@@ -250,8 +250,17 @@ pub fn check_exec_named(source: &str, tgt: Tgt, arg_seed: u64, vectors: usize, e
         funcs.push((id, q));
         emitted_prefix.push((prefix, nd.name.node.clone()));
     }
+    // methods: owner struct of each member function
+    let mut owner: std::collections::HashMap<u32, usize> = std::collections::HashMap::new();
+    for (si, sd) in module.struct_registry.iter().enumerate() {
+        for mid in &sd.methods {
+            owner.insert(mid.0, si);
+        }
+    }
     for (pos, (id, q)) in funcs.iter().enumerate() {
-        let group: Vec<usize> = funcs.iter().enumerate().filter(|(_, (_, n))| n == q).map(|(i, _)| i).collect();
+        let method_of = owner.get(&id.0).copied();
+        // overload groups are per scope: methods of one struct, or free functions of one namespace
+        let group: Vec<usize> = funcs.iter().enumerate().filter(|(_, (oid, n))| n == q && owner.get(&oid.0).copied() == method_of).map(|(i, _)| i).collect();
         let index_in_group = group.iter().position(|i| *i == pos).unwrap();
         let Some(imp) = reg.get_function_implementation(*id).clone() else { continue };
         // the name in the emitted text: namespaces and the function may have been renamed by the exporter (C15 passes
@@ -262,7 +271,25 @@ pub fn check_exec_named(source: &str, tgt: Tgt, arg_seed: u64, vectors: usize, e
             .map(|n| format!("{}{}", prefix, n))
             .and_then(|n| unit.funcs.iter().filter(|f| f.has_body && !f.params.iter().any(|p| p.ty == ctext::TyE::TrueType)).find(|f| f.name == n));
         let q_out = format!("{}{}", prefix, out_name(leaf));
-        let Some(tf) = by_group_index.or_else(|| text_function_for(&unit, &q_out, index_in_group, group.len())).or_else(|| text_function_for(&unit, q, index_in_group, group.len())) else {
+        let text_struct = method_of.and_then(|si| {
+            let want = out_name(&module.struct_registry[si].name.node);
+            unit.structs.iter().position(|s| s.name == want || s.name.rsplit("::").next() == Some(want.as_str()))
+        });
+        let method_tf = text_struct.and_then(|ts| {
+            let ms: Vec<&ctext::FuncD> = unit.structs[ts].methods.iter().filter(|f| f.has_body && !f.params.iter().any(|p| p.ty == ctext::TyE::TrueType)).collect();
+            let exact: Vec<&&ctext::FuncD> = ms.iter().filter(|f| f.name == out_name(leaf)).collect();
+            if group.len() == 1 && exact.len() == 1 {
+                return Some(*exact[0]);
+            }
+            let mut members: Vec<(u64, &ctext::FuncD)> = ms.iter().filter_map(|f| f.name.strip_prefix(out_name(leaf).as_str())?.strip_prefix('_')?.parse::<u64>().ok().map(|n| (n, *f))).collect();
+            members.sort_by_key(|m| m.0);
+            if members.len() == group.len() { members.get(index_in_group).map(|m| m.1) } else { None }
+        });
+        if method_of.is_some() && method_tf.is_none() {
+            labels.push("text_method_missing".into());
+            return Verdict::Fail { signature: "missing-function".into(), detail: format!("no emitted method for IR method {} of struct {}\n{}", q, module.struct_registry[method_of.unwrap()].name.node, text) };
+        }
+        let Some(tf) = method_tf.or(by_group_index).or_else(|| text_function_for(&unit, &q_out, index_in_group, group.len())).or_else(|| text_function_for(&unit, q, index_in_group, group.len())) else {
             // functions nobody calls may be dropped by a backend only if they are unreachable; in
             // no-pipeline mode everything is emitted, so a missing function is reported
             labels.push("text_function_missing".into());
@@ -294,7 +321,22 @@ pub fn check_exec_named(source: &str, tgt: Tgt, arg_seed: u64, vectors: usize, e
             if !ok {
                 break;
             }
-            let e2 = match it.run_function(*id, &argv) {
+            // the object of a method call: a sampled value of the struct type
+            let this_value = match method_of {
+                Some(si) => match sample_mode(&it, module.struct_registry[si].type_id, &mut mix, vec_index.min(2), 0) {
+                    Ok(v) => Some(v),
+                    Err(e) => {
+                        labels.push(format!("e2_unsupported:{}", norm(&e)));
+                        break;
+                    }
+                },
+                None => None,
+            };
+            let e2_result = match &this_value {
+                Some(t) => it.run_method(*id, t.clone(), &argv).map(|(r, o, f)| ((r, o), Some(f))),
+                None => it.run_function(*id, &argv).map(|r| (r, None)),
+            };
+            let (e2, e2_this) = match e2_result {
                 Ok(r) => r,
                 Err(irsem::Stop::Fuel) => {
                     labels.push("e2_fuel".into());
@@ -355,7 +397,11 @@ pub fn check_exec_named(source: &str, tgt: Tgt, arg_seed: u64, vectors: usize, e
             if !shape_ok {
                 break;
             }
-            let e3 = match sem.run(tf, args) {
+            let e3_result = match (&this_value, text_struct) {
+                (Some(t), Some(ts)) => sem.run_method(ts, tf, t.clone(), args).map(|(r, o, f)| ((r, o), Some(f))),
+                _ => sem.run(tf, args).map(|r| (r, None)),
+            };
+            let (e3, e3_this) = match e3_result {
                 Ok(r) => r,
                 Err(csem::Stop::Fuel) => {
                     labels.push("e3_fuel".into());
@@ -378,6 +424,12 @@ pub fn check_exec_named(source: &str, tgt: Tgt, arg_seed: u64, vectors: usize, e
             };
             if !same(&e2.0, &e3.0) {
                 return mismatch("return value", &e2.0, &e3.0);
+            }
+            if let (Some(a), Some(b)) = (&e2_this, &e3_this) {
+                if !same(a, b) {
+                    return mismatch("object after the method call", a, b);
+                }
+                labels.push("methods".into());
             }
             let mut oi = 0;
             for (i, p) in imp.params.iter().enumerate() {
